@@ -15,7 +15,7 @@ package cty
 //
 //@ func cty.NumberFloatVal
 //@   tags C06
-//@   may_panic
+//@   panics (f64.isnan v)
 //@   ensures[C06] shape: (and (is_number_ty (vty result)) (plain result) ((_ is box<*math/big.Float>) (cty.Value.v result)) (not (= (unbox<*math/big.Float> (cty.Value.v result)) 0)))
 //
 //@ func cty.ParseNumberVal
@@ -48,7 +48,80 @@ package cty
 //@   requires (vals_typed elems (Slice.len elems))
 //@   let n (Slice.len elems)
 //@   ensures[C06] shape: (and (is_tuple_ty (vty result)) (plain result) (is_seq_payload result) (= (Slice.len (pl_seq result)) n) (= (tuple_len (vty result)) n))
-//@   ensures[C06] elemtys: (forall ((j Int)) (! (=> (and (trig j) (<= 0 j) (< j n)) (= (tuple_at (vty result) j) (vty (vals_rel elems j)))) :pattern ((trig j))))
+//@   ensures[C06] elemtys: (forall ((j Int)) (! (=> (and (trig j) (<= 0 j) (< j n)) (= (select (tuple_arr (vty result)) j) (vty (vals_rel elems j)))) :pattern ((trig j)) :pattern ((select (tuple_arr (vty result)) j))))
+//@   ensures[C06] tyoff: (= (tuple_off (vty result)) 0)
 //@   ensures[C06] wfty: (wf_ty (vty result))
 //@   loop 1 invariant (forall ((j Int)) (! (=> (and (trig j) (<= 0 j) (< j $i)) (= (select (select $H<Arr<cty.Type>> (Slice.ptr elemTypes)) j) (vty (vals_rel elems j)))) :pattern ((trig j))))
 //@   loop 1 invariant (and (< (Slice.ptr elemTypes) 0) (= (Slice.off elemTypes) 0) (= (Slice.len elemTypes) (Slice.len elems)))
+//
+//@ func cty.ListValEmpty
+//@   tags C06
+//@   ensures[C06] shape: (and (= (vty result) (ty_list element)) (plain result) (is_seq_payload result) (= (Slice.len (pl_seq result)) 0))
+//
+//@ func cty.MapValEmpty
+//@   tags C06
+//@   ensures[C06] shape: (and (= (vty result) (ty_map element)) (plain result) (is_map_payload result))
+//
+// Set values are built by package set (C03); until those contracts are in place the two
+// set constructors carry assumed contracts with the same preconditions as their list twins.
+//@ func cty.SetValEmpty
+//@   trusted
+//@   ensures (and (= (vty result) (ty_set element)) (plain result))
+//
+//@ func cty.SetVal
+//@   trusted
+//@   requires nonempty: (> (Slice.len vals) 0)
+//@   requires typed: (vals_typed vals (Slice.len vals))
+//@   requires consistent: (vals_consistent vals (Slice.len vals))
+//@   ensures (and (is_set_ty (vty result)) (wf_ty (vty result)) (wf_marks result) (is_known result) (not (is_null result)))
+//@   ensures (or (and (is_dyn_ty (elem_ty (vty result))) (vals_all_dyn vals (Slice.len vals))) (and (not (is_dyn_ty (elem_ty (vty result)))) (vals_some_ty vals (Slice.len vals) (elem_ty (vty result)))))
+//
+//@ func cty.MapVal
+//@   tags C06
+//@   requires nonempty: (> (MapC<String~cty.Value>.card (vmap vals)) 0)
+//@   requires typed: (vmap_typed vals)
+//@   requires consistent: (vmap_consistent vals)
+//@   ensures[C06] shape: (and (is_map_ty (vty result)) (wf_ty (vty result)) (plain result) (is_map_payload result))
+//@   ensures[C06] elemty: (or (and (is_dyn_ty (elem_ty (vty result))) (vmap_all_dyn vals)) (and (not (is_dyn_ty (elem_ty (vty result)))) (vmap_some_ty vals (elem_ty (vty result)))))
+//@   loop 1 invariant (or (and (is_dyn_ty elementType) (forall ((k String)) (! (=> (select $visited k) (is_dyn_ty (vty (vmap_at vals k)))) :pattern ((select $visited k))))) (and (not (is_dyn_ty elementType)) (exists ((k String)) (! (and (select $visited k) (= elementType (vty (vmap_at vals k)))) :pattern ((select $visited k))))))
+//
+//@ func cty.ObjectVal
+//@   tags C06
+//@   requires typed: (vmap_typed attrs)
+//@   let tm $H<MapC<String~cty.Type>>
+//@   ensures[C06] shape: (and (is_obj_ty (vty result)) (plain result) (is_map_payload result) (= (obj_opt (vty result)) empty<String>))
+//@   ensures[C06] wfty: (wf_ty (vty result))
+//@   ensures[C06] dom: (forall ((k String)) (! (= (select (obj_dom (vty result)) k) (exists ((k0 String)) (! (and (select (vmap_dom attrs) k0) (= (nfc k0) k)) :pattern ((select (vmap_dom attrs) k0))))) :pattern ((select (obj_dom (vty result)) k))))
+//@   ensures[C06] tys: (forall ((k String)) (! (=> (select (obj_dom (vty result)) k) (exists ((k0 String)) (! (and (select (vmap_dom attrs) k0) (= (nfc k0) k) (= (obj_aty (vty result) k) (vty (vmap_at attrs k0)))) :pattern ((select (vmap_dom attrs) k0))))) :pattern ((select (obj_dom (vty result)) k))))
+//@   loop 1 invariant (MapC<String~cty.Type>.ok (select tm attrTypes))
+//@   loop 1 invariant (forall ((k String)) (! (= (select (MapC<String~cty.Type>.dom (select tm attrTypes)) k) (exists ((k0 String)) (! (and (select $visited k0) (= (nfc k0) k)) :pattern ((select $visited k0))))) :pattern ((select (MapC<String~cty.Type>.dom (select tm attrTypes)) k))))
+//@   loop 1 invariant (forall ((k String)) (! (=> (select (MapC<String~cty.Type>.dom (select tm attrTypes)) k) (and (wf_ty (select (MapC<String~cty.Type>.val (select tm attrTypes)) k)) (exists ((k0 String)) (! (and (select $visited k0) (= (nfc k0) k) (= (select (MapC<String~cty.Type>.val (select tm attrTypes)) k) (vty (vmap_at attrs k0)))) :pattern ((select $visited k0)))))) :pattern ((select (MapC<String~cty.Type>.dom (select tm attrTypes)) k))))
+//
+// Path errors are never nil (decoders return them on every failure path).
+//@ func cty.errorf
+//@   tags C17
+//@   borrows path
+//@   ensures[C17] ((_ is box<cty.PathError>) result)
+//
+//@ func (cty.Path).NewErrorf
+//@   tags C17
+//@   borrows p
+//@   ensures[C17] ((_ is box<cty.PathError>) result)
+//
+//@ func (cty.Path).NewError
+//@   tags C17
+//@   borrows p
+//@   ensures[C17] ((_ is box<cty.PathError>) result)
+//
+//@ func cty.CanMapVal
+//@   tags C06
+//@   requires (vmap_typed vals)
+//@   ensures[C06] sound: (=> result (vmap_consistent vals))
+//@   loop 1 invariant (or (and (is_dyn_ty elementType) (forall ((k String)) (! (=> (select $visited k) (is_dyn_ty (vty (vmap_at vals k)))) :pattern ((select $visited k))))) (and (not (is_dyn_ty elementType)) (exists ((k String)) (! (and (select $visited k) (= elementType (vty (vmap_at vals k)))) :pattern ((select $visited k))))))
+//@   loop 1 invariant (forall ((k String)) (! (=> (and (select $visited k) (not (is_dyn_ty (vty (vmap_at vals k))))) (ty_eq elementType (vty (vmap_at vals k)))) :pattern ((select $visited k))))
+//
+// (CanSetVal unmarks deeply before comparing types; assumed like SetVal until C03/C19 contracts exist.)
+//@ func cty.CanSetVal
+//@   trusted
+//@   requires (vals_typed vals (Slice.len vals))
+//@   ensures (=> result (vals_consistent vals (Slice.len vals)))
